@@ -19,7 +19,8 @@ import (
 func CanonicalizeSource(source string) string {
 	source = strings.TrimPrefix(source, "\ufeff") // strip UTF-8 BOM; the lexer rejects it
 	source = strings.ReplaceAll(source, "\r\n", "\n")
-	source = strings.ReplaceAll(source, "\r", "\n")
+	// Only CRLF is a line ending. A lone carriage return is a blank to the lexer
+	// (also inside string literals and comments), so it must not become a line break.
 
 	lines := strings.Split(source, "\n")
 	var out []string
